@@ -2,7 +2,10 @@
 """Generates /verif/MANIFEST.json from tools/checks.json (claimed checks) + properties.jsonl (everything else -> not_applicable with reason)."""
 import json, os
 V = "/verif"
-checks = json.load(open(V + "/tools/checks.json"))
+checks = {}
+for fn in sorted(os.listdir(V + "/tools/checks.d")):
+    if fn.endswith(".json"):
+        checks.update(json.load(open(V + "/tools/checks.d/" + fn)))
 props = [json.loads(l) for l in open(V + "/properties.jsonl")]
 na_reasons = json.load(open(V + "/tools/not_applicable.json")) if os.path.exists(V + "/tools/not_applicable.json") else {}
 out_checks, na = [], []
